@@ -162,6 +162,19 @@ def stepTyped (ins : Instr) (s : State) (pkt : List Nat) : Step :=
 def runTyped (p : List Instr) (pkt : List Nat) : Outcome :=
   runFuel stepTyped p pkt p.length 0 State.init
 
+/-- A `*VM` value: the only field is the program (`filter`); registers and the scratch memory `M[0..15]` are
+locals of `Run`, zeroed at every call. -/
+structure VM where
+  filter : List Instr
+
+/-- `(*VM).Run(in)` as a state transition of the VM object: the VM is left as it was. -/
+def VM.run (v : VM) (pkt : List Nat) : VM × Outcome := (v, runTyped v.filter pkt)
+
+/-- Successive `Run` calls on one VM value. -/
+def VM.runSeq (v : VM) : List (List Nat) → List Outcome
+  | [] => []
+  | pkt :: rest => let (v', o) := v.run pkt; o :: VM.runSeq v' rest
+
 /-! ### vm.go: NewVM -/
 
 def isRet : Instr → Bool
